@@ -22,6 +22,18 @@ claimed = {
    text="Deterministic simulation: a victim connection with fids in every state and up to 4 requests parked in the implementation is disconnected (EOF, reset, mid-frame) at a drawn step, at a quiescence with requests parked, or idle; parked requests are released afterwards in scheduler-chosen order. Decided from the invocation log and the scheduler's goroutine table: ConnClosed exactly once, every fid shown to the implementation destroyed exactly once, every goroutine descending from the victim's NewConn finished at final quiescence, bystander and a later connection served.",
    note="Trusts the instrumenter, the simulated transport and the scheduler's goroutine ancestry (spawn paths). File descriptors of Ufs are covered by the Ufs stratum once built.",
    technique="deterministic simulation: transport cut as fault at drawn crash points + scripted holds; invocation-log and goroutine-table oracle at quiescence"),
+ "C09": dict(level="exploration", ref="§4 C09",
+   text="Deterministic simulation of the real client library against a scripted server peer that decodes every request independently, checks tag discipline on arrival, and answers in scheduler-chosen order and segmentation (replies withheld and released one per phase). 1..64 concurrent callers, every reply kind (matching R, Rerror with text and number, mismatched R type), the pipelined Tag interface with shared tags, and a long run of more than 65 535 consecutive calls (thorough) with a recycled-tag bound.",
+   note="Trusts the instrumenter, the simulated transport and the peer's independent codec; reply content is a function of the request so that a caller can tell its own reply from anybody else's.",
+   technique="deterministic simulation: seeded scheduler over client goroutines + scripted peer choosing reply order; call-result oracle against a function of the request"),
+ "C12": dict(level="exploration", ref="§4 C12",
+   text="Deterministic simulation over an enumerated configuration grid (server msize x client msize x dialect x version string, 700 cells revisited under new schedules): Rversion fields, then every reply kind measured on the wire with the scripted implementation producing replies at msize-1, msize, msize+1 and 2*msize; renegotiation after the reply-buffer pool was filled and with requests parked; frames announcing illegal sizes (0..6, msize+1, 8*msize+1, 2^31, 2^32-1) with and without partial body must drop only that connection without any invocation; the client side runs Connect against scripted Rversion replies.",
+   note="Trusts the instrumenter, simulated transport and harness codec. The implementation never returns more data than asked (that would be the implementation's fault); the bundled Ufs is measured under C14/C15.",
+   technique="deterministic simulation over an enumerated negotiation grid; wire-length and dialect oracle with an independent decoder"),
+ "C13": dict(level="exploration", ref="§4 C13",
+   text="Deterministic simulation: a generated session mixing 9/11-byte messages, Twrite up to msize-1 and messages of exactly msize, with msize 96..4096 so the 8 x msize receive buffer is replaced many times, is delivered to the server's receive loop one byte per read, 1..3 bytes, randomly, coalesced, or with exactly one split point enumerated by run index; expected invocations (arguments, payload hash re-checked when the implementation answers later) and replies are a function of the stream, so every run is checked absolutely. The client's receive loop is fed a scripted reply stream under the same policies.",
+   note="Trusts the instrumenter, the simulated transport (read sizes are scheduler decisions) and the harness codec.",
+   technique="deterministic simulation: transport read sizes as seeded scheduler decisions incl. enumerated split points; stream-function oracle"),
 }
 na = {
  "C01": "pure function of (fields, dialect): no schedule, clock, fault or interleaving; deterministic simulation does not apply (DESIGN.md §1)",
